@@ -24,14 +24,11 @@ PID = "C05"
 MODES_FULL = [(0, 0), (1, 0), (1, 1), (1, 2), (1, 3), (1, 8), (1, 127), (1, 128), (1, 255), (2, 0)]
 MODES_SMALL = [(0, 0), (1, 2), (2, 0)]
 
-# pending finding (confirmed on the current tree, patch in DEFECTS.md, not yet applied): keyed by the exact shape
-PENDING = {
-    "binary-later-text": "text of a binary-flagged element that is not the element's first child is written raw instead of base64 "
-                         "(current_tag is reset after the first child); the XML is not well-formed when the octets are not XML characters",
-}
+# pending findings (confirmed on the current tree, patch proposed, not yet applied), keyed by the exact shape: none at present
+PENDING = {}
 
 # findings repaired in /repo (3c772f6 D8 tree builder, 0de0008 D9 CDATA split, 32930ca D28/D29 xmlns around literal
-# elements): their shapes are ordinary violations now.  `shapes` is kept for the evidence (how often the
+# elements, 093ad9f D32 binary-later-text): their shapes are ordinary violations now.  `shapes` is kept for the evidence (how often the
 # generators reach these shapes).
 
 
@@ -621,8 +618,7 @@ def run(ctx):
             nontrivial.add((c["doc"], g, ind, kw))
             ci_ = canon_infoset(*det["infoset"])
             reads.append((i, xml_bytes, ci_))
-            if g != 1:
-                specs.append((i, "spec %d %d %d %s" % (g, ind, kw, dump), " ".join(ci_.split()[4:])))
+            specs.append((i, "spec %d %d %d %s" % (g, ind, kw, dump), " ".join(ci_.split()[4:])))
         else:
             lid, roots = parse_dump(toks)
             sh = shapes(roots)
@@ -696,7 +692,7 @@ def run(ctx):
         ctx.violation("reader-model-vs-pyexpat", {"broken": "Model/XmlRead.v read_xml disagrees with pyexpat on output of the C", "first_cases": read_bad[:3]},
                       found_input=False)
     if spec_bad:
-        ctx.violation("theorem-spec-vs-pyexpat", {"broken": "the infoset specified by info_node (Proofs/EncXmlProofs.v) under node_ok differs from what pyexpat reads in the C's output",
+        ctx.violation("theorem-spec-vs-pyexpat", {"broken": "the infoset specified by info_g (Proofs/EncXmlIndent.v) under node_ok differs from what pyexpat reads in the C's output",
                                                   "first_cases": spec_bad[:3]}, found_input=False)
     if not concrete:
         if proof_broken:
